@@ -120,6 +120,14 @@ class Region:
             return None
         if a[1] == 'at' and len(a) == 4 and a[2][0] == 'B' and a[2][1] == self.label and a[3][0] == 'P':
             ix = Poly.from_key(a[3][1])
+            inner_at = _single_atom(Poly.from_key(a[2][2]))
+            if inner_at is not None and inner_at[0] == 'fn' and inner_at[1] == 'argsort' and len(inner_at) == 4 and inner_at[2] == ('L', self.label) \
+                    and inner_at[3][0] == 'B' and inner_at[3][1] == self.label and ix.is_const() and ix.const_value().denominator == 1 and 0 <= ix.const_value() < self.n:
+                # argsort of values that the region's ordering puts in strictly increasing order is the identity
+                es = [self.simplify_inner(index_at(Poly.from_key(inner_at[3][2]), self.label, num(j))) for j in range(self.n)]
+                if all(self.simplify_inner(mk_ind('<0', es[j] - es[j + 1])) == num(1) for j in range(self.n - 1)):
+                    return ix
+                return None
             if getattr(self, '_watch', False) and ix.is_const() and ix.const_value().denominator == 1 and not -self.n <= ix.const_value() < self.n:
                 self.oob.append(int(ix.const_value()))          # numpy raises IndexError
             if ix.is_const() and ix.const_value().denominator == 1 and -self.n <= ix.const_value() < 0:
